@@ -25,3 +25,12 @@ func getLinkSource(name string, fi os.FileInfo, inodes map[uint64]string) (strin
 	}
 	return path, nil
 }
+
+// validLinkSource reports whether the destination entry recorded as the
+// source for further hard links still has the type of fi. A later source of
+// the same call (wildcards) may have replaced it, e.g. by a symlink; linking
+// to that and applying fi's mode would act on whatever the symlink points to.
+func validLinkSource(link string, fi os.FileInfo) bool {
+	cur, err := os.Lstat(link)
+	return err == nil && cur.Mode().Type() == fi.Mode().Type()
+}
